@@ -188,7 +188,7 @@ func MannWhitneyUTest(x1, x2 []float64, alt LocationHypothesis) (*MannWhitneyUTe
 				// which is 1.
 				p = 1
 			} else {
-				p = dist.CDF(Usmall) * 2
+				p = math.Min(1, dist.CDF(Usmall)*2)
 			}
 
 		case LocationLess:
